@@ -479,6 +479,57 @@ def partial(m, seed, keep_frac=0.6, mode="random"):
     return out
 
 
+def shrunk(m, seed, scale):
+    """High-resolution regional patch: the faces within ~70 degrees of a random node, contracted towards that node by
+    `scale` (p -> unit(c + scale*(p - c))): same incidence and orientation, face sizes of ~scale times the original."""
+    rng = _rng(seed, 37)
+    c = m.xyz[int(rng.integers(0, m.n_node))]
+    near = m.xyz @ c > 0.35
+    keep = [i for i, f in enumerate(m.faces) if all(near[v] for v in f)]
+    if not keep:
+        keep = [int(np.argmax([min(m.xyz[v] @ c for v in f) for f in m.faces]))]
+    fl = [m.faces[i] for i in keep]
+    used = sorted({v for f in fl for v in f})
+    remap = {o: i for i, o in enumerate(used)}
+    fl = [[remap[v] for v in f] for f in fl]
+    xyz = ref.unit(c[None, :] + scale * (m.xyz[used] - c[None, :]))
+    out = Mesh(xyz, fl, dict(m.desc, shrink=[seed, scale]), False)
+    out.kept_faces = keep
+    return out
+
+
+def refined(n, seed, radius):
+    """Closed Delaunay mesh, locally refined: a well-spread background plus one or two tight clusters of `radius` radians
+    (down to 1e-6): triangles of a few metres next to triangles of thousands of kilometres."""
+    from scipy.spatial import ConvexHull
+
+    rng = _rng(seed, n, 41)
+    for _try in range(2000):
+        nb = max(8, n // 2)
+        base = _safe_points(rng, nb)
+        pts = [base]
+        left = n - nb
+        for _c in range(2):
+            k = left if _c == 1 else left // 2
+            if k <= 0:
+                continue
+            c = base[int(rng.integers(0, nb))]
+            t1 = ref.unit(np.cross(c, [0.3, 0.5, 0.8]))
+            t2 = np.cross(c, t1)
+            uv = rng.uniform(-1, 1, size=(k, 2))
+            pts.append(ref.unit(c[None, :] + radius * (uv[:, :1] * t1[None, :] + uv[:, 1:] * t2[None, :])))
+        P = np.concatenate(pts)
+        if np.any(np.abs(P[:, 2]) > 1 - 1e-6):
+            continue
+        hull = ConvexHull(P)
+        if hull.equations[:, 3].max() < -0.2 and len(hull.vertices) == len(P):
+            break
+    else:
+        raise RuntimeError("no refined point set found")
+    faces = [_orient(P, list(s)) for s in hull.simplices]
+    return Mesh(P, faces, {"family": "refined", "n": n, "seed": seed, "radius": radius}, True)
+
+
 # --------------------------------------------------------------------------- catalogue
 def build(desc):
     """Rebuild a mesh from a descriptor (used by replay)."""
@@ -501,6 +552,8 @@ def build(desc):
         m = clustered(desc["n"], desc["seed"])
     elif fam == "bipyramid":
         m = bipyramid(desc["k"], desc["seed"])
+    elif fam == "refined":
+        m = refined(desc["n"], desc["seed"], desc["radius"])
     else:
         raise ValueError(fam)
     for key, val in desc.get("ops", []):
@@ -517,11 +570,13 @@ def apply_op(m, key, val):
         out = random_rotated(m, val)
     elif key == "snap":
         out = snap(m, *val)
+    elif key == "shrink":
+        out = shrunk(m, *val)
     else:
         raise ValueError(key)
     d = dict(m.desc)
     d["ops"] = list(m.desc.get("ops", [])) + [[key, val]]
-    for k in ("partial", "renumber", "rot"):
+    for k in ("partial", "renumber", "rot", "shrink"):
         d.pop(k, None)
     out.desc = d
     return out
@@ -549,6 +604,15 @@ def random_mesh(rng, max_faces=200, allow_partial=True, families=None):
         d = {"family": fam, "n": int(rng.integers(12, max(13, max_faces // 2 + 2))), "seed": seed}
     elif fam == "bipyramid":
         d = {"family": fam, "k": int(rng.integers(3, 11)), "seed": seed}
+    elif fam == "refined":
+        d = {"family": fam, "n": int(rng.integers(14, max(15, max_faces // 2 + 2))), "seed": seed, "radius": float(rng.choice([1e-3, 1e-4, 2e-5, 1e-6]))}
+    elif fam == "fine_patch":
+        # a high-resolution regional patch: a closed mesh cut to a cap and contracted (see shrunk)
+        src = random_mesh(rng, max_faces * 3, allow_partial=False, families=["voronoi", "delaunay", "merged", "cubed_sphere"])
+        src["ops"] = [["shrink", [int(rng.integers(0, 10**6)), float(rng.choice([1e-2, 1e-3, 1e-4, 2e-5]))]]]
+        if rng.random() < 0.5:
+            src["ops"].append(["renumber", int(rng.integers(0, 10**6))])
+        return src
     elif fam == "latlon_patch":
         nx = int(rng.integers(1, 9))
         ny = int(rng.integers(1, 7))
